@@ -254,7 +254,7 @@ func (c *PolyCtx) accessPath(addr ssa.Value) (string, bool) {
 				}
 			}
 			return "", false
-		case *ssa.Call, *ssa.Phi, *ssa.Extract, *ssa.MakeInterface, *ssa.TypeAssert:
+		case *ssa.Call, *ssa.Phi, *ssa.Extract, *ssa.MakeInterface, *ssa.TypeAssert, *ssa.Lookup:
 			// a pointer obtained from a call etc.: an opaque but stable root
 			return fmt.Sprintf("v%d:%s", c.id(v), v.Name()) + joinFields(fields), true
 		default:
